@@ -19,6 +19,8 @@
 #include "llvm/ADT/Hashing.h"
 #include "llvm/ADT/StringRef.h"
 
+#include <type_traits>
+
 namespace llbuild {
 namespace basic {
 
@@ -56,6 +58,16 @@ public:
   CommandSignature& combine(bool b) {
     // FIXME: Use a more appropriate hashing infrastructure.
     value = llvm::hash_combine(value, b);
+    return *this;
+  }
+
+  /// Combine an integer (e.g. an enumerator). Without this overload integers
+  /// were implicitly converted to `bool`, so all non-zero values collided.
+  template <typename T,
+            typename = typename std::enable_if<std::is_integral<T>::value &&
+                                               !std::is_same<T, bool>::value>::type>
+  CommandSignature& combine(T i) {
+    value = llvm::hash_combine(value, static_cast<uint64_t>(i));
     return *this;
   }
 
